@@ -2,6 +2,7 @@ package vf
 
 import (
 	"bytes"
+	"os"
 	"encoding/json"
 	"errors"
 	"fmt"
@@ -26,6 +27,10 @@ type c17Arg struct {
 }
 
 var c17Classes = []string{"t", "mid", "limA", "limA+"}
+
+// value sizes of the map streams: the mixes that decide whether an under-full last leaf can borrow from its left
+// sibling or must be merged into it need sizes between the extremes (a fifth, a quarter, a third of a slab)
+var mapStreamClasses = []string{"t", "s50", "mid", "third", "limM", "limM+"}
 
 var fullOracles = Spec{Oracles: []string{"sem", "struct", "reach", "size", "rt", "regs", "health"}}
 
@@ -262,7 +267,21 @@ func c17MapBatch(a c17Arg, res *TaskResult) {
 			res.Viols = append(res.Viols, what+": "+err.Error())
 			return
 		}
+		// structure of the freshly built map, BEFORE anything else touches it (a later removal or a splitting
+		// insert can repair a malformed tree): the library's verifier and the independent traversal
+		if err := OStructInRepo(w); err != nil {
+			res.Viols = append(res.Viols, what+": right after the bulk build: "+err.Error())
+			return
+		}
+		if err := OStructIndependent(w, w.DoWalk(), "right after the bulk build"); err != nil {
+			res.Viols = append(res.Viols, what+": "+err.Error())
+			return
+		}
 		txt, _ := w.StateText()
+		if os.Getenv("VERIF_DEBUG") != "" {
+			fmt.Println(what)
+			fmt.Println(txt)
+		}
 		res.Distinct = append(res.Distinct, HashText(txt))
 		if len(res.Samples) < 2 {
 			res.Samples = append(res.Samples, what)
@@ -308,7 +327,7 @@ func c17MapBatch(a c17Arg, res *TaskResult) {
 			if len(cur) >= a.MaxLen || len(res.Viols) > 3 {
 				return
 			}
-			for _, cl := range []string{"t", "limM", "limM+", "mid"} {
+			for _, cl := range mapStreamClasses {
 				rec(append(append([]string{}, cur...), cl))
 			}
 		}
@@ -759,7 +778,7 @@ func c17Negative(a c17Arg, res *TaskResult) {
 
 func init() {
 	RegisterCheck(&CheckDef{ID: "C17", Level: "model_checking", Run: func(r *Run) {
-		r.Rule = "exhaustive enumeration on the real bulk APIs: ALL element streams over {3-byte scalar, quarter-slab string, exactly-at-limit string, one-over-limit string} up to length 8 (thorough 10) through NewArrayFromBatchData, and all streams up to length 6 (thorough 7) over {scalar, at-limit string, inlined array, composite map, wrapped standalone array, inlined map}; every length up to 120 (thorough 600) with uniform prefixes and all tail patterns of the last 4 (thorough 5) elements; NewMapFromBatchData from every value-size sequence up to length 7 (thorough 9) with keys in digest order, from sources of every size up to 40 (thorough 120) and from every 3-key digest assignment (collision groups), plus unsorted / duplicate / zero-seed streams; CopyNonRefSimple offered <=> single slab of plain elements for every array/map of <= 3 elements over 7 element kinds, standalone and inlined, and after every single mutation of either side the other side's registers are byte-identical; ByteSliceToByteArray for every length 0..L and every estimated-size argument with round trip; every result is checked by content, the in-repo verifiers, the independent structure/size/round-trip/reachability oracles and CheckStorageHealth; states = distinct resulting slab structures"
+		r.Rule = "exhaustive enumeration on the real bulk APIs: ALL element streams over {3-byte scalar, quarter-slab string, exactly-at-limit string, one-over-limit string} up to length 8 (thorough 10) through NewArrayFromBatchData, and all streams up to length 6 (thorough 7) over {scalar, at-limit string, inlined array, composite map, wrapped standalone array, inlined map}; every length up to 120 (thorough 600) with uniform prefixes and all tail patterns of the last 4 (thorough 5) elements; NewMapFromBatchData from every sequence over 6 value sizes up to length 6 (thorough 8) with keys in digest order, from sources of every size up to 40 (thorough 120) and from every 3-key digest assignment (collision groups), plus unsorted / duplicate / zero-seed streams; CopyNonRefSimple offered <=> single slab of plain elements for every array/map of <= 3 elements over 7 element kinds, standalone and inlined, and after every single mutation of either side the other side's registers are byte-identical; ByteSliceToByteArray for every length 0..L and every estimated-size argument with round trip; every result is checked by content, the in-repo verifiers, the independent structure/size/round-trip/reachability oracles and CheckStorageHealth; states = distinct resulting slab structures"
 		r.Assumptions = []string{
 			"streams longer than the stated bounds (tens of thousands of elements) are outside the enumeration; the tail-pattern family is what decides the under-full last leaf and last index slab",
 		}
@@ -788,12 +807,12 @@ func init() {
 		}
 		r.RunTaskGroup("array streams with nested children (all, length<=max)", "c17", args)
 		args = nil
-		ml := 7
+		ml := 6
 		if r.Thorough() {
-			ml = 9
+			ml = 8
 		}
-		for _, a := range []string{"t", "limM", "limM+", "mid"} {
-			for _, b := range []string{"t", "limM", "limM+", "mid"} {
+		for _, a := range mapStreamClasses {
+			for _, b := range mapStreamClasses {
 				args = append(args, c17Arg{T: T, Mode: "map-streams", Prefix: []string{a, b}, MaxLen: ml})
 			}
 			args = append(args, c17Arg{T: T, Mode: "map-streams", Prefix: []string{a}, MaxLen: 1})
